@@ -235,6 +235,25 @@ def corrupt_text(text: str, c: dict) -> str:
     return "\n".join(lines)
 
 
+def reformat_text(text: str, kind: str) -> str:
+    """Harmless-looking transformations a stored document meets on its way between tools and platforms."""
+    if kind == "crlf":
+        return text.replace("\n", "\r\n")
+    if kind == "bom":
+        return "\ufeff" + text
+    if kind == "tabs":
+        return text.replace("  ", "\t")
+    if kind == "trailing_space":
+        return "\n".join(ln + "  " for ln in text.split("\n"))
+    if kind == "blank_lines":
+        return text.replace("\n", "\n\n")
+    if kind == "comments":
+        return "# exported\n" + "\n".join(ln + "  # note" if i % 3 == 0 and ln.strip() else ln for i, ln in enumerate(text.split("\n")))
+    if kind == "no_final_newline":
+        return text.rstrip("\n")
+    raise AssertionError(kind)
+
+
 def rule_snap(r) -> tuple:
     return (r.antecedent.text, r.consequent.text, fx(r.weight), r.enabled, r.is_loaded(), id(r.antecedent.expression),
             tuple(id(c) for c in r.consequent.conclusions))
@@ -335,7 +354,11 @@ class C16(Sim):
                 k = rng.random()
                 if k < 0.3:
                     ops.append({"op": "corrupt_store", "c": {"kind": "torn", "frac": rng.random()}})
-                elif k < 0.45:
+                elif k < 0.38:
+                    ops.append({"op": "reformat_store", "kind": rng.choice(["crlf", "bom", "tabs", "trailing_space", "blank_lines", "comments", "no_final_newline"])})
+                    if rng.random() < 0.5:
+                        ops.append({"op": "corrupt_store", "c": {"kind": "torn", "frac": rng.random()}})
+                elif k < 0.50:
                     ops.append({"op": "store_rule_error", "line": rng.randrange(64), "listed": rng.choice(LISTED), "seed": rng.randrange(1 << 30)})
                 else:
                     for _ in range(rng.choice([1, 1, 1, 2, 3])):
@@ -677,6 +700,15 @@ class C16(Sim):
                         st.hit("probes.torn_after_engine_line")
                 emit(f"{i} corrupt_store {c['kind']} len={len(store.data)}")
                 sig.append("c" + c["kind"][:5])
+            elif k == "reformat_store":
+                if store.data is None:
+                    continue
+                store.raw = None
+                store.data = reformat_text(store.data, op["kind"])
+                pending_listed = None
+                st.hit("faults.doc_reformat_" + op["kind"])
+                emit(f"{i} reformat_store {op['kind']} len={len(store.data)}")
+                sig.append("f" + op["kind"][:4])
             elif k == "store_rule_error":
                 if store.data is None:
                     continue
